@@ -653,4 +653,298 @@ theorem search_notFound_sound (cfg : Cfg) (layout : Layout) (g : ∀ f ∈ layou
   rw [this]
 
 
+/-! #### termination of the probing loop -/
+
+/-- index probed next -/
+def nextIndex (s : SState) : Int := roundBase s + s.idxoff
+
+/-- potential: (width of [minVal,maxVal]) × (W+1)  +  (W+1 while still in backwards mode)
++ probes left in the current round -/
+def potential (W : Int) (s : SState) : Int :=
+  (W + 1) * ((s.maxVal - s.minVal + 1).toNat : Int)
+  + (match s.mode with | .backwards => W + 1 | .binary => 0)
+  + (if nextIndex s < s.minVal then 0 else ((s.maxVal + 1 - nextIndex s).toNat : Int))
+
+structure TInv (W : Int) (s : SState) : Prop where
+  min0 : 0 ≤ s.minVal
+  maxW : s.maxVal + 1 ≤ W
+  off0 : 0 ≤ s.idxoff
+  bo : s.backoff ≤ 0
+
+theorem width_step {A w w' : Int} (hA : 0 ≤ A) (h1 : 1 ≤ w) (h : w' + 1 ≤ w) :
+    A * (w'.toNat : Int) + A ≤ A * (w.toNat : Int) := by
+  have h2 : (w'.toNat : Int) + 1 ≤ (w.toNat : Int) := by omega
+  have := Int.mul_le_mul_of_nonneg_left h2 hA
+  rw [Int.mul_add, Int.mul_one] at this
+  exact this
+
+theorem width_mono {A w w' : Int} (hA : 0 ≤ A) (h : w' ≤ w) :
+    A * (w'.toNat : Int) ≤ A * (w.toNat : Int) := by
+  have h2 : (w'.toNat : Int) ≤ (w.toNat : Int) := by omega
+  exact Int.mul_le_mul_of_nonneg_left h2 hA
+
+/-- the probes left in a round never exceed the width of the range -/
+theorem potential_le (W : Int) (s : SState) :
+    potential W s ≤ (W + 1) * ((s.maxVal - s.minVal + 1).toNat : Int)
+      + (match s.mode with | .backwards => W + 1 | .binary => 0)
+      + ((s.maxVal - s.minVal + 1).toNat : Int) := by
+  unfold potential
+  split <;> omega
+
+theorem scanFile_later_keep (cfg : Cfg) (ignore keep : Bool) (h : Int) :
+    ∀ (fuel : Nat) (bs : Bytes), scanFile cfg ignore keep h fuel bs = .later → keep = false := by
+  intro fuel
+  induction fuel with
+  | zero => intro bs hf; simp [scanFile] at hf
+  | succ fuel ih =>
+    intro bs hf
+    unfold scanFile at hf
+    split at hf
+    · cases hf
+    · split at hf
+      · cases hf
+      · split at hf
+        · exact ih _ hf
+        · cases hf
+      · cases hf
+      · exact ih _ hf
+      · split at hf
+        · cases hf
+        · split at hf
+          · cases hf
+          · split at hf
+            · exact ih _ hf
+            · rename_i hk; simpa using hk
+
+theorem searchLoop_terminates (cfg : Cfg) (g : Group) (ignore : Bool) (h : Int) (W : Int) (hW : 0 ≤ W) :
+    ∀ (fuel : Nat) (s : SState), TInv W s → potential W s < (fuel : Int) →
+      searchLoop cfg g ignore h fuel s ≠ .fuelOut := by
+  intro fuel
+  induction fuel with
+  | zero =>
+    intro s inv hp
+    exfalso
+    have h1 : 0 ≤ (W + 1) * ((s.maxVal - s.minVal + 1).toNat : Int) :=
+      Int.mul_nonneg (by omega) (by omega)
+    unfold potential at hp
+    have := inv.min0; have := inv.maxW
+    split at hp <;> split at hp <;> omega
+  | succ fuel ih =>
+    intro s inv hp
+    have hmin := inv.min0; have hmaxW := inv.maxW; have hoff := inv.off0; have hbo := inv.bo
+    unfold searchLoop
+    dsimp only
+    split
+    · simp
+    · rename_i hle
+      have hle' : s.minVal ≤ s.maxVal := by omega
+      have hA : 0 ≤ W + 1 := by omega
+      have hw1 : 1 ≤ s.maxVal - s.minVal + 1 := by omega
+      split
+      · -- backwards
+        rename_i hmode
+        have hpot : potential W s = (W + 1) * ((s.maxVal - s.minVal + 1).toNat : Int) + (W + 1)
+            + (if s.maxVal + s.backoff + s.idxoff < s.minVal then 0
+               else ((s.maxVal + 1 - (s.maxVal + s.backoff + s.idxoff)).toNat : Int)) := by
+          simp [potential, nextIndex, roundBase, hmode]
+        rw [hpot] at hp
+        split
+        · -- ran past maxVal: new round further back
+          rename_i hover
+          apply ih
+          · exact ⟨hmin, by dsimp only; omega, by simp, by dsimp only; split <;> omega⟩
+          · have hs := width_step (w := s.maxVal - s.minVal + 1) (w' := s.maxVal + s.backoff - 1 - s.minVal + 1)
+              hA hw1 (by omega)
+            simp only [potential, nextIndex, roundBase, hmode]
+            split at hp <;> split <;> split <;> omega
+        · rename_i hnover
+          split
+          · simp
+          · rename_i hnpanic
+            have hr : (if s.maxVal + s.backoff + s.idxoff < s.minVal then (0 : Int)
+                else ((s.maxVal + 1 - (s.maxVal + s.backoff + s.idxoff)).toNat : Int))
+                = s.maxVal + 1 - (s.maxVal + s.backoff + s.idxoff) := by
+              rw [if_neg hnpanic]; omega
+            rw [hr] at hp
+            split
+            · -- eof: next file of the round
+              apply ih
+              · exact ⟨hmin, hmaxW, by dsimp only; omega, hbo⟩
+              · simp only [potential, nextIndex, roundBase, hmode]
+                split <;> omega
+            · simp
+            · simp
+            · simp
+            · -- earlier
+              by_cases hb0 : s.backoff = 0
+              · have hb0' : (s.backoff == 0) = true := by simpa using hb0
+                simp only [hb0', if_true]
+                have hs := width_step (w := s.maxVal - s.minVal + 1) (w' := s.maxVal - 1 - s.minVal + 1)
+                  hA hw1 (by omega)
+                split
+                · apply ih
+                  · exact ⟨hmin, by dsimp only; omega, by simp, by simp⟩
+                  · have hmid : (s.minVal + (s.maxVal - 1) + 1).tdiv 2 = (s.minVal + (s.maxVal - 1) + 1) / 2 :=
+                      Int.tdiv_eq_ediv_of_nonneg (by omega)
+                    simp only [potential, nextIndex, roundBase, hmid]
+                    split <;> omega
+                · apply ih
+                  · exact ⟨hmin, by dsimp only; omega, by simp, by simp⟩
+                  · simp only [potential, nextIndex, roundBase, hmode]
+                    split <;> omega
+              · have hb0' : (s.backoff == 0) = false := by simpa using hb0
+                simp only [hb0', Bool.false_eq_true, if_false]
+                have hs := width_step (w := s.maxVal - s.minVal + 1) (w' := s.maxVal + s.backoff - s.minVal + 1)
+                  hA hw1 (by omega)
+                split
+                · apply ih
+                  · exact ⟨hmin, by dsimp only; omega, by simp, by simp⟩
+                  · by_cases hnn : 0 ≤ s.minVal + (s.maxVal + s.backoff) + 1
+                    · have hmid : (s.minVal + (s.maxVal + s.backoff) + 1).tdiv 2
+                          = (s.minVal + (s.maxVal + s.backoff) + 1) / 2 := Int.tdiv_eq_ediv_of_nonneg hnn
+                      simp only [potential, nextIndex, roundBase, hmid]
+                      split <;> omega
+                    · -- the new range is empty: the loop exits at the next turn
+                      have hz : ((s.maxVal + s.backoff - s.minVal + 1).toNat : Int) = 0 := by omega
+                      have hsz : 0 ≤ (W + 1) * ((s.maxVal - s.minVal + 1).toNat : Int) :=
+                        Int.mul_nonneg hA (by omega)
+                      have hle2 := potential_le W (SState.mk s.minVal (s.maxVal + s.backoff) Mode.binary 0 0)
+                      simp only [hz, Int.mul_zero] at hle2
+                      omega
+                · apply ih
+                  · exact ⟨hmin, by dsimp only; omega, by simp, by dsimp only; omega⟩
+                  · simp only [potential, nextIndex, roundBase, hmode]
+                    split <;> omega
+            · -- later: binary search with the probed file as new lower end
+              have hs := width_mono (A := W + 1) (w := s.maxVal - s.minVal + 1)
+                (w' := s.maxVal - (s.maxVal + s.backoff + s.idxoff) + 1) hA (by omega)
+              apply ih
+              · exact ⟨by dsimp only; omega, hmaxW, by simp, by simp⟩
+              · have hmid : ((s.maxVal + s.backoff + s.idxoff) + s.maxVal + 1).tdiv 2
+                    = ((s.maxVal + s.backoff + s.idxoff) + s.maxVal + 1) / 2 :=
+                  Int.tdiv_eq_ediv_of_nonneg (by omega)
+                simp only [potential, nextIndex, roundBase, hmid]
+                split <;> omega
+      · -- binary
+        rename_i hmode
+        have hmid : (s.minVal + s.maxVal + 1).tdiv 2 = (s.minVal + s.maxVal + 1) / 2 :=
+          Int.tdiv_eq_ediv_of_nonneg (by omega)
+        have hpot : potential W s = (W + 1) * ((s.maxVal - s.minVal + 1).toNat : Int)
+            + (if (s.minVal + s.maxVal + 1) / 2 + s.idxoff < s.minVal then 0
+               else ((s.maxVal + 1 - ((s.minVal + s.maxVal + 1) / 2 + s.idxoff)).toNat : Int)) := by
+          simp [potential, nextIndex, roundBase, hmode, hmid]
+        rw [hpot] at hp
+        rw [hmid]
+        have hs := width_step (w := s.maxVal - s.minVal + 1)
+          (w' := (s.minVal + s.maxVal + 1) / 2 - 1 - s.minVal + 1) hA hw1 (by omega)
+        have hmid' : (s.minVal + ((s.minVal + s.maxVal + 1) / 2 - 1) + 1).tdiv 2
+            = (s.minVal + ((s.minVal + s.maxVal + 1) / 2 - 1) + 1) / 2 :=
+          Int.tdiv_eq_ediv_of_nonneg (by omega)
+        split
+        · rename_i hover
+          apply ih
+          · exact ⟨hmin, by dsimp only; omega, by simp, hbo⟩
+          · simp only [potential, nextIndex, roundBase, hmode, hmid']
+            split at hp <;> split <;> omega
+        · rename_i hnover
+          have hr : (if (s.minVal + s.maxVal + 1) / 2 + s.idxoff < s.minVal then (0 : Int)
+              else ((s.maxVal + 1 - ((s.minVal + s.maxVal + 1) / 2 + s.idxoff)).toNat : Int))
+              = s.maxVal + 1 - ((s.minVal + s.maxVal + 1) / 2 + s.idxoff) := by
+            rw [if_neg (by omega)]; omega
+          rw [hr] at hp
+          split
+          · apply ih
+            · exact ⟨hmin, hmaxW, by dsimp only; omega, hbo⟩
+            · simp only [potential, nextIndex, roundBase, hmode, hmid]
+              split <;> omega
+          · simp
+          · simp
+          · simp
+          · apply ih
+            · exact ⟨hmin, by dsimp only; omega, by simp, hbo⟩
+            · simp only [potential, nextIndex, roundBase, hmode, hmid']
+              split <;> omega
+          · -- later: only when index < maxVal
+            rename_i hsf
+            have hk := scanFile_later_keep _ _ _ _ _ _ hsf
+            have hlt : (s.minVal + s.maxVal + 1) / 2 + s.idxoff < s.maxVal := by simpa using hk
+            have hs2 := width_step (w := s.maxVal - s.minVal + 1)
+              (w' := s.maxVal - ((s.minVal + s.maxVal + 1) / 2 + s.idxoff) + 1) hA hw1 (by omega)
+            have hmid2 : (((s.minVal + s.maxVal + 1) / 2 + s.idxoff) + s.maxVal + 1).tdiv 2
+                = (((s.minVal + s.maxVal + 1) / 2 + s.idxoff) + s.maxVal + 1) / 2 :=
+              Int.tdiv_eq_ediv_of_nonneg (by omega)
+            apply ih
+            · exact ⟨by dsimp only; omega, hmaxW, by simp, hbo⟩
+            · simp only [potential, nextIndex, roundBase, hmode, hmid2]
+              split <;> omega
+
+/-- The probing loop of `SearchForHeight` terminates: the model's fuel is never exhausted,
+whatever the files contain. -/
+theorem search_ne_fuelOut (cfg : Cfg) (g : Group) (mode : Nat) (ignore : Bool) (h : Int) :
+    search cfg g mode ignore h ≠ .fuelOut := by
+  unfold search
+  have hW : (0 : Int) ≤ (g.files.length : Int) + 1 := by omega
+  have hmaxI : ((g.maxIndex : Nat) : Int) + 1 ≤ (g.files.length : Int) + 1 := by
+    simp only [Group.maxIndex]; omega
+  apply searchLoop_terminates cfg g ignore h ((g.files.length : Int) + 1) hW
+  · exact ⟨by simp, hmaxI, by simp, by simp⟩
+  · have hle := potential_le ((g.files.length : Int) + 1)
+      (SState.mk (g.minIndex : Int) (g.maxIndex : Int) (if mode == 2 then Mode.binary else Mode.backwards) 0 0)
+    dsimp only at hle ⊢
+    have hwn : (((g.maxIndex : Int) - (g.minIndex : Int) + 1).toNat : Int) ≤ (g.files.length : Int) + 1 := by
+      omega
+    have hmul : ((g.files.length : Int) + 1 + 1) * (((g.maxIndex : Int) - (g.minIndex : Int) + 1).toNat : Int)
+        ≤ ((g.files.length : Int) + 1 + 1) * ((g.files.length : Int) + 1) :=
+      Int.mul_le_mul_of_nonneg_left hwn (by omega)
+    have hm : (match (if mode == 2 then Mode.binary else Mode.backwards) with
+        | .backwards => (g.files.length : Int) + 1 + 1 | .binary => 0) ≤ (g.files.length : Int) + 1 + 1 := by
+      split
+      · exact Int.le_refl _
+      · have := hW; omega
+    have e1 : ((g.files.length : Int) + 1 + 1) * ((g.files.length : Int) + 1)
+        = (g.files.length : Int) * (g.files.length : Int) + 3 * (g.files.length : Int) + 2 := by grind
+    have e2 : ((8 * (g.files.length + 4) * (g.files.length + 4) + 64 : Nat) : Int)
+        = 8 * ((g.files.length : Int) * (g.files.length : Int)) + 64 * (g.files.length : Int) + 192 := by
+      push_cast; grind
+    have hq : 0 ≤ (g.files.length : Int) * (g.files.length : Int) := Int.mul_nonneg (by omega) (by omega)
+    rw [e2]
+    rw [e1] at hmul
+    generalize (g.files.length : Int) * (g.files.length : Int) = q at hmul hq ⊢
+    generalize ((g.files.length : Int) + 1 + 1) * (((g.maxIndex : Int) - (g.minIndex : Int) + 1).toNat : Int) = c at hmul hle
+    revert hm hle
+    generalize (match (if mode == 2 then Mode.binary else Mode.backwards) with
+        | .backwards => (g.files.length : Int) + 1 + 1 | .binary => 0) = d
+    intro hm hle
+    omega
+
+/-- once in binary mode the loop cannot reach the `panic("should not happen")` -/
+theorem searchLoop_binary_no_panic (cfg : Cfg) (g : Group) (ignore : Bool) (h : Int) :
+    ∀ (fuel : Nat) (s : SState), s.mode = .binary → searchLoop cfg g ignore h fuel s ≠ .panicked := by
+  intro fuel
+  induction fuel with
+  | zero => intro s _; simp [searchLoop]
+  | succ fuel ih =>
+    intro s hm
+    unfold searchLoop
+    dsimp only
+    split
+    · simp
+    · split
+      · rename_i hb; rw [hm] at hb; cases hb
+      · split
+        · exact ih _ hm
+        · split
+          · exact ih _ hm
+          · simp
+          · simp
+          · simp
+          · exact ih _ hm
+          · exact ih _ hm
+
+theorem search_binary_no_panic (cfg : Cfg) (g : Group) (ignore : Bool) (h : Int) :
+    search cfg g 2 ignore h ≠ .panicked := by
+  unfold search
+  exact searchLoop_binary_no_panic cfg g ignore h _ _ rfl
+
+
 end GnoVerif.C38
